@@ -21,7 +21,10 @@ TRUSTED = [
     "`-p.cd < -q.cd` is modelled as `q.cd < p.cd` (exact for non-NaN floats); math.inf is modelled as the constructor Inf (inf + finite = inf)",
     "C03_crowding_bounds rests on the named arithmetic premises (term_bounds, add_bounds, bound_start); they are proved for exact rationals "
     "(C03_crowding_bounds_Q) and assumed, not proved, for binary64 (monotone rounding); the direct oracle checks the bounds on every generated front",
-    "C03_truncate_spec's design clause has the premise that set()'s element equality is symmetric; it holds for equal-length vectors when |a-b| = |b-a| (binary64: assumed)",
+    "C03_truncate_spec's design clause has the premise that set()'s element equality is symmetric on the population; it holds for equal-length vectors when |a-b| = |b-a| (binary64: assumed)",
+    "design equality in the run instance: same recorded hash(tuple(vector)) and (same object or Individual.__eq__), i.e. what set() applies; hashes are recorded per individual",
+    "compared per case: crowding distance of every member (by id, bit for bit), the set of surviving ids, the winner id; the order in which crowding_distance "
+    "leaves the list and the order of the returned survivors are not part of the property and are not compared",
 ]
 ASSUMPTIONS = [
     "cost values are finite non-NaN binary64 floats whose differences do not overflow; all members of a front have the same number of objectives",
@@ -38,7 +41,9 @@ LEVEL_TEXT = ("Machine-checked Coq theorems over an executable model of crowding
               "sample and coin. The binary64 instance of the model is run in Coq on every generated case and compared with the real code exactly.")
 LEVEL_NOTE = ("Trusted: Coq kernel + vm_compute; the hand-written model and the Python harness; stable-sort uniqueness; the arithmetic premises of "
               "C03_crowding_bounds are proved for Q and only assumed for binary64; symmetry of Individual equality is a premise of the each-design-once clause. "
-              "Front numbers are inputs (their correctness is C02); correspondence is sampled, theorems are unbounded.")
+              "Front numbers are inputs (their correctness is C02); correspondence is sampled, theorems are unbounded. The model fixes the tie-break among "
+              "individuals with equal (front, crowding) keys at the cut (set order + stable sort): a change of that tie-break alone is reported as a "
+              "correspondence break without a failing input.")
 
 HEADER = ("From Artap Require Import Run.C03Run.\nFrom Coq Require Import List ZArith Floats.\nImport ListNotations.\n"
           "Open Scope float_scope.\n")
